@@ -5,6 +5,7 @@ import (
 
 	"github.com/cnotch/ipchub/av/codec"
 	"github.com/cnotch/ipchub/zzverif/symapi"
+	"github.com/cnotch/queue"
 )
 
 type verifRec struct{ buf []byte }
@@ -215,4 +216,85 @@ func VerifFlvStreamTwin() {
 	w.WriteFlvTag(t)
 	out := rec.buf
 	symapi.Assert(out[13+11+2+3] == 11, "twin-previous-tag-size-without-data")
+}
+
+// In VerifFlvMuxerOrder (*Muxer).muxMetadataTag is replaced by this (the AMF0 body needs
+// reflection and float formatting): a metadata tag with an opaque body is written.
+func verifMetadataStub(muxer *Muxer) error {
+	return muxer.tagWriter.WriteFlvTag(&Tag{TagType: TagTypeAmf0Data, Data: []byte{2, 0, 10, 'o', 'n', 'M', 'e', 't', 'a', 'D', 'a', 't', 'a'}})
+}
+
+// VerifFlvMuxerOrder: whatever frames arrive first (audio before video, non-key before key),
+// the muxer's output starts with the metadata tag, then the video decoder configuration,
+// then (with AAC) the audio configuration, each exactly once, before any media tag; every
+// frame then yields its media tag in arrival order.
+func VerifFlvMuxerOrder() {
+	symapi.Deterministic(true)
+	K := symapi.Param("K", 3)
+	rec := &verifTagRec{}
+	hevc := symapi.Bool("hevc")
+	withAudio := symapi.Bool("aac")
+	vm := &codec.VideoMeta{Codec: "H264", Sps: []byte{0x67, 0x42, 0x00, 0x1f, 0xaa}, Pps: []byte{0x68, 0xce}}
+	if hevc {
+		vm = &codec.VideoMeta{Codec: "H265", Vps: []byte{0x40, 1, 0x0c, 1, 0xff}, Sps: []byte{0x42, 1, 1, 1, 0x60, 0, 0, 3, 0, 0x90, 0, 0, 3, 0, 0, 3, 0, 0x5d}, Pps: []byte{0x44, 1, 0xc1}}
+	}
+	am := &codec.AudioMeta{}
+	if withAudio {
+		am = &codec.AudioMeta{Codec: "AAC", SampleRate: 44100, Channels: 2, SampleSize: 16, Sps: []byte{0x12, 0x10}}
+	}
+	m := &Muxer{recvQueue: queue.NewSyncQueue(), videoMeta: vm, audioMeta: am, vp: emptyPacketizer{}, ap: emptyPacketizer{}, typeFlags: byte(TypeFlagsVideo), tagWriter: rec}
+	if hevc {
+		m.vp = NewH265Packetizer(vm, rec)
+	} else {
+		m.vp = NewH264Packetizer(vm, rec)
+	}
+	if withAudio {
+		m.typeFlags |= TypeFlagsAudio
+		m.ap = NewAacPacketizer(am, rec)
+	}
+	symapi.Go(m.process)
+	want := 0
+	for k := 0; k < K; k++ {
+		var f *codec.Frame
+		switch symapi.Choose("frame", 3) {
+		case 0:
+			f = &codec.Frame{MediaType: codec.MediaTypeAudio, Payload: []byte{0x21, 0x10, byte(k)}, Pts: int64(k) * 23000000, Dts: int64(k) * 23000000}
+			if withAudio {
+				want++
+			}
+		case 1: // non-key slice
+			p := []byte{0x41, 0x9a, byte(k)}
+			if hevc {
+				p = []byte{1 << 1, 1, 0x9a, byte(k)}
+			}
+			f = &codec.Frame{MediaType: codec.MediaTypeVideo, Payload: p, Pts: int64(k) * 40000000, Dts: int64(k) * 40000000}
+			want++
+		case 2: // key frame
+			p := []byte{0x65, 0x88, byte(k)}
+			if hevc {
+				p = []byte{19 << 1, 1, 0x88, byte(k)}
+			}
+			f = &codec.Frame{MediaType: codec.MediaTypeVideo, Payload: p, Pts: int64(k) * 40000000, Dts: int64(k) * 40000000}
+			want++
+		}
+		m.WriteFrame(f)
+	}
+	symapi.Settle()
+	tags := rec.tags
+	heads := 2
+	if withAudio {
+		heads = 3
+	}
+	symapi.Assert(len(tags) == heads+want, "headers-once-then-one-tag-per-frame")
+	symapi.Assert(tags[0].TagType == TagTypeAmf0Data, "metadata-first")
+	symapi.Assert(tags[1].IsH2645SequenceHeader(), "video-decoder-configuration-second")
+	if withAudio {
+		symapi.Assert(tags[2].IsAACSequenceHeader(), "aac-configuration-third")
+	}
+	for _, t := range tags[heads:] {
+		symapi.Assert(t.TagType != TagTypeAmf0Data && !t.IsH2645SequenceHeader() && !t.IsAACSequenceHeader(), "no-second-header-among-the-media-tags")
+	}
+	m.Close()
+	symapi.Settle()
+	symapi.Reach("end")
 }
